@@ -293,3 +293,20 @@ def proof_coverage(ps: ProofStatus) -> Dict[str, Any]:
         "theorems": {k: v for k, v in sorted(ps.theorems.items())},
         "proof_wall_s": round(ps.wall, 2),
     }
+
+
+def pick(findings: List[Dict[str, Any]], limit: int, per_key: int = 3) -> List[Dict[str, Any]]:
+    """keep at most `limit` findings, diversified: at most `per_key` per (kind, signature of each
+    message), so that a flood of one message (a known finding, say) cannot crowd out a different one"""
+    seen: Dict[Any, int] = {}
+    first: List[Dict[str, Any]] = []
+    rest: List[Dict[str, Any]] = []
+    for f in findings:
+        keys = {(f.get("kind"), str(t).split("|", 1)[0].strip()[:60]) for t in (f.get("text") or [""])}
+        if any(seen.get(k, 0) < per_key for k in keys):
+            first.append(f)
+            for k in keys:
+                seen[k] = seen.get(k, 0) + 1
+        else:
+            rest.append(f)
+    return (first + rest)[:limit]
